@@ -39,6 +39,22 @@ CORPUS = [
     ("x = 1\n\x0c\nimport os as operating\ndef paged(): pass\n", ['operating', 'paged']),
     ("first = 1\r\nimport os as crlf\r\n", ['crlf']),
     ("class classic: pass\n", ['classic']),
+    # any white space separates the keyword from the name
+    ("def\ttabbed(): pass\n", ['tabbed']),
+    ("class\tTabbed: pass\n", ['Tabbed']),
+    ("def \\\n    continued(): pass\n", ['continued']),
+    # names that are a prefix of a keyword standing in front of them
+    ("async def d(): pass\n", ['d']),
+    ("async def de(): pass\n", ['de']),
+    ("class c: pass\n", ['c']),
+    ("def d(): pass\n", ['d']),
+    ("async def a(): pass\n", ['a']),
+    # what may follow the last imported name on its line
+    ("import os#c\n", ['os']),
+    ("import os;import sys\n", ['os', 'sys']),
+    ("from os import sep#, altsep\n", ['sep']),
+    ("from os import (sep,\\\n  altsep)\n", ['sep', 'altsep']),
+    ("import os as o#x\nimport sys\\\n  as s\n", ['o', 's']),
 ]
 
 
